@@ -1,7 +1,7 @@
 CONSTANTS
   TREEONLY = TRUE
   MUT = 0
-  NK = 12
+  NK = 14
   Keys <- MCKeys
   HashOf <- MCHash
   InitLists <- MCInit
